@@ -46,7 +46,13 @@ def correspondence(res, tier, seed):
 
 REAL = ["LinearScaling", "DeltaChange", "QuantileMapping", "ScaledDistributionMapping", "CDFt", "ECDFM", "QuantileDeltaMapping", "ISIMIP"]
 
-def build(name, r):
+# non-default but valid option values (quick: the first and one more per run; thorough: all)
+VARIANTS = [("ISIMIP", dict(event_likelihood_adjustment=True)), ("ISIMIP", dict(nonparametric_qm=True)),
+            ("QuantileMapping", dict(mapping_type="nonparametric")), ("ISIMIP", dict(event_likelihood_adjustment=True, running_window_mode=False)),
+            ("ScaledDistributionMapping", dict(running_window_mode=False)), ("CDFt", dict(running_window_mode=False)),
+            ("QuantileDeltaMapping", dict(running_window_mode_over_years_of_cm_future=False)), ("ISIMIP", dict(detrending=False))]
+
+def build(name, r, over=None):
     import ibicus.debias as D, scipy.stats
     L = r.choice([9, 15, 31]); S = r.choice([s for s in (1, 3, 9, 15) if s <= L])
     kw = dict(running_window_mode=True, running_window_length=L, running_window_step_length=S)
@@ -54,6 +60,7 @@ def build(name, r):
     if name == "ECDFM": kw["distribution"] = scipy.stats.norm
     if name == "QuantileDeltaMapping": kw.update(running_window_over_years_of_cm_future_length=3, running_window_over_years_of_cm_future_step_length=1, cdf_threshold=1e-3)
     if name == "CDFt": kw.update(running_window_over_years_of_cm_future_length=3, running_window_over_years_of_cm_future_step_length=1)
+    kw.update(over or {})
     with warnings.catch_warnings():
         warnings.simplefilter("ignore")
         return getattr(D, name).from_variable("tas", **kw), kw
@@ -69,8 +76,9 @@ def search(res, tier, seed, deep=False):
         res.witness(dict(component="apply_location (permuted series)", statement=stmt, input=inp, observed=obs, expected="C06", **{"class": cls_}))
     rounds = 1 if tier == "quick" else 5
     for rnd in range(rounds):
-        for name in REAL:
-            d, kw = build(name, r)
+        variants = VARIANTS if tier != "quick" else [VARIANTS[0], VARIANTS[1 + (seed + rnd) % (len(VARIANTS) - 1)]]
+        for name, over in [(n_, None) for n_ in REAL] + variants:
+            d, kw = build(name, r, over)
             nO, nH, nF = r.randint(740, 800), r.randint(740, 800), r.randint(740, 1100)
             starts = ["1980-%02d-%02d" % (r.randint(1, 12), r.randint(1, 28)), "1980-%02d-%02d" % (r.randint(1, 12), r.randint(1, 28)), "2040-%02d-%02d" % (r.randint(1, 12), r.randint(1, 28))]
             tO, tH, tF = [create_array_of_consecutive_dates(n, np.datetime64(s)) for n, s in zip((nO, nH, nF), starts)]
@@ -94,7 +102,7 @@ def search(res, tier, seed, deep=False):
                     np.random.seed(5)
                     out = d.apply_location(obs[pO], hist[pH], fut[pF], time_obs=tO[pO], time_cm_hist=tH[pH], time_cm_future=tF[pF])
                 want = base[pO] if name == "DeltaChange" else base[pF]
-                res.case(("perm", name, pk))
+                res.case(("perm", name, pk, tuple(sorted((over or {}).items()))))
                 scale = max(1.0, float(np.nanmax(np.abs(want))))
                 bad = out.shape != want.shape or not np.allclose(out, want, rtol=0, atol=1e-9 * scale, equal_nan=True)
                 if bad:
